@@ -6,7 +6,7 @@
    the octagon ∩ image ∩ mask percentile and its checker. *)
 From Coq Require Import ZArith List Bool Sorted Permutation.
 From Centro Require Import Model.Median Spec.MedianSpec Proofs.MedianCheck Proofs.MedianHist
-  Proofs.MedianGeom Proofs.MedianRank Proofs.MedianRefute Proofs.MedianSlide Proofs.MedianStep Proofs.MedianInv.
+  Proofs.MedianGeom Proofs.MedianRank Proofs.MedianRefute Proofs.MedianSlide Proofs.MedianStep Proofs.MedianInv Proofs.MedianWrap.
 From Centro Require Model.VecC18 Model.RankC18.
 Import ListNotations.
 Open Scope Z_scope.
@@ -386,6 +386,37 @@ Theorem C07_merge_transport : forall (f : Z -> Z) (l : list Z) (r v' : Z),
   RankOf (map f l) r v' -> exists x, In x l /\ f x = v'.
 Proof. exact merge_transport. Qed.
 Print Assumptions C07_merge_transport.
+
+(* ---------------------------------------------------------------- median_filter_model_correct (FULL)
+
+   The property's statement for the model of filter.median_filter that the correspondence ties to
+   the code (AsIs kernel): every rectangular image and mask, radius >= 2, percent 0..100, fewer than
+   65536 unmasked pixels per window, at most 255 distinct masked values, any dtype class (intlike or
+   not), whichever path the wrapper takes (all-masked shortcut, direct, rank_order): the returned
+   array is the exact masked octagonal percentile of the ORIGINAL values. *)
+Theorem C07_median_filter_model_correct : forall intlike orders rows cols data mask radius percent b o,
+  0 < rows -> rect rows cols data -> rect rows cols mask -> 2 <= radius -> 0 <= percent <= 100 ->
+  WinSmall mask rows cols radius ->
+  (length (sort_u (masked_vals data mask)) <= 255)%nat ->
+  wrapper AsIs intlike orders data mask radius percent = WOut b o ->
+  MedianSpec data mask radius percent o.
+Proof. exact median_filter_model_correct. Qed.
+Print Assumptions C07_median_filter_model_correct.
+
+(* More than 255 distinct values: the output is the translation of the EXACT statistic of the merged
+   level image L; L and the table are those of C18's proven model of rank_order(data[mask], 255)
+   (C18_rank_order_bins_correct: monotone merge to <= 255 levels, table entries are input values). *)
+Theorem C07_median_filter_model_merged : forall intlike orders data mask radius percent o,
+  (255 < length (sort_u (masked_vals data mask)))%nat ->
+  wrapper AsIs intlike orders data mask radius percent = WOut true o ->
+  2 <= radius -> 0 <= percent <= 100 ->
+  exists r tr, let L := fill_img mask (map Z.of_nat r) in
+    RankC18.rank_order_bins_with (RankC18.replay_oracle orders) (VecC18.argsort (masked_vals data mask))
+      (masked_vals data mask) 255 = Some (r, tr) /\
+    o = map (map (fun x => nth (Z.to_nat x) tr 0)) (kernel AsIs L mask radius percent) /\
+    (Masked8 L mask -> WinSmall mask (img_rows L) (img_cols L) radius -> MedianSpec L mask radius percent (kernel AsIs L mask radius percent)).
+Proof. exact median_filter_model_merged. Qed.
+Print Assumptions C07_median_filter_model_merged.
 
 (* ---------------------------------------------------------------- F2 *)
 
